@@ -253,12 +253,69 @@ void noise_grids(Ctx &c) {
     c.nontrivial();
 }
 
+// ---- E: sigma grids of correlated parameters -------------------------------------------------------
+// A standard whose S cell is a correlated parameter is usable only where BOTH its 'other' parameter and its sigma
+// grid are defined: a sigma grid (>= 2 knots) that misses the calibration band by >= 5 % at either end must get
+// the standard refused (grid first) or the frequency vector refused (standards first); one that covers the band,
+// or a 1-point sigma ("frequency vector is ignored"), must be accepted.  The 'other' parameter always covers.
+void sigma_grids(Ctx &c) {
+    int F = 2 + (int)c.draw(4);
+    double lo = 1e6 * (double)c.range(1, 1000), hi = lo * (1.5 + 10 * c.unit());
+    std::vector<double> cal = gen_grid(c, F, lo, hi);
+    VC vc; PBT_CHECK(c, vc.p, "C10.create", "vnacal_create failed");
+    bool set_first = c.boolean();
+    vnacal_new_t *vnp = vnacal_new_alloc(vc.p, c.boolean() ? VNACAL_T8 : VNACAL_E12, 1, 1, F);
+    PBT_CHECK(c, vnp, "C10.new_alloc", "vnacal_new_alloc failed");
+    if (set_first) PBT_CHECK(c, vnacal_new_set_frequency_vector(vnp, cal.data()) == 0, "C10.set_fv", "set_frequency_vector failed");
+    c.label("E:correlated-sigma-range"); c.label(set_first ? "order:grid-first" : "order:standards-first");
+    // the 'other' parameter: scalar, a vector that covers the band generously, or an unknown with a scalar guess
+    int other;
+    switch (c.weighted({2, 2, 1})) {
+    case 0: other = vnacal_make_scalar_parameter(vc.p, todcx(LC(0.8L, -0.1L))); c.label("other:scalar"); break;
+    case 1: { std::vector<double> g = gen_grid(c, 2 + (int)c.draw(4), lo * 0.5, hi * 2); std::vector<dcx> v(g.size(), todcx(LC(0.8L, -0.1L))); other = vnacal_make_vector_parameter(vc.p, g.data(), (int)g.size(), v.data()); c.label("other:vector"); break; }
+    default: { int gs = vnacal_make_scalar_parameter(vc.p, todcx(LC(0.8L, -0.1L))); other = vnacal_make_unknown_parameter(vc.p, gs); c.label("other:unknown"); break; }
+    }
+    PBT_CHECK(c, other >= 3, "C10.make_parameter", "making the 'other' parameter failed: %s", vc.log.text().c_str());
+    int scen = c.weighted({4, 2, 2, 1, 1});       // 0 cover, 1 low shortfall, 2 high shortfall, 3 both, 4 one point
+    int n = scen == 4 ? 1 : 2 + (int)c.draw(7);
+    double glo = (scen == 1 || scen == 3) ? lo * (1.05 + 0.3 * c.unit()) : lo * (0.5 + 0.5 * c.unit());
+    double ghi = (scen == 2 || scen == 3) ? hi * (0.95 - 0.3 * c.unit()) : hi * (1.0 + c.unit());
+    if (scen == 0 && c.chance(1, 4)) { glo = lo; ghi = hi; }
+    if (ghi <= glo * 1.01) ghi = glo * 1.02;
+    std::vector<double> grid = n == 1 ? std::vector<double>{hi * 3} : gen_grid(c, n, glo, ghi);      // 1 point: a frequency far outside, "ignored"
+    std::vector<double> sig; for (int i = 0; i < n; i++) sig.push_back(0.01 * (1 + c.unit()));
+    vc.log.clear();
+    int h = vnacal_make_correlated_parameter(vc.p, other, grid.data(), n, sig.data());
+    PBT_CHECK(c, h >= 3, "C10.make_correlated", "vnacal_make_correlated_parameter (%d sigma knots) failed: %s", n, vc.log.text().c_str());
+    std::vector<dcx> mv(F, mkc(0.3, 0.2)); dcx *mm[1] = {mv.data()};
+    vc.log.clear(); errno = 0;
+    int rc = vnacal_new_add_single_reflect_m(vnp, mm, 1, 1, h, 1); int err = errno;
+    bool must_refuse = scen >= 1 && scen <= 3;
+    c.note("correlated standard: sigma grid [%g..%g] (%d knots) vs calibration [%g..%g]: scenario %d, %s -> add rc %d", grid.front(), grid.back(), n, lo, hi, scen, set_first ? "grid first" : "standards first", rc);
+    if (scen == 2) c.label("sigma:high-end-shortfall"); if (scen == 1) c.label("sigma:low-end-shortfall"); if (scen == 4) c.label("sigma:one-point");
+    if (set_first) {
+        if (must_refuse) {
+            PBT_CHECK(c, rc == -1, "C10.sigma_shortfall_accepted", "standard with a correlated parameter whose sigma grid [%g, %g] misses the calibration band [%g, %g] (%s by >= 5%%) accepted", grid.front(), grid.back(), lo, hi, scen == 1 ? "the low end" : scen == 2 ? "the high end" : "both ends");
+            PBT_CHECK(c, err == EINVAL && vc.log.n_nonwarning() >= 1 && vc.log.last()->category == VNAERR_USAGE, "C10.refusal_report", "refusal with errno %d / %s", err, vc.log.text().c_str());
+        } else PBT_CHECK(c, rc == 0, "C10.sigma_cover_refused", "standard with a correlated parameter whose sigma grid covers the band (or has one point) refused: %s", vc.log.text().c_str());
+    } else {
+        PBT_CHECK(c, rc == 0, "C10.add_before_grid_refused", "add before set_frequency_vector refused: %s", vc.log.text().c_str());
+        vc.log.clear(); errno = 0;
+        rc = vnacal_new_set_frequency_vector(vnp, cal.data()); err = errno;
+        if (must_refuse) PBT_CHECK(c, rc == -1 && err == EINVAL, "C10.sigma_shortfall_accepted", "set_frequency_vector accepted a band [%g, %g] that the sigma grid [%g, %g] of an already added correlated standard does not cover (rc %d errno %d)", lo, hi, grid.front(), grid.back(), rc, err);
+        else PBT_CHECK(c, rc == 0, "C10.sigma_cover_refused", "set_frequency_vector refused although the sigma grid covers the band: %s", vc.log.text().c_str());
+    }
+    c.nontrivial();
+    vnacal_new_free(vnp);
+}
+
 } // namespace
 
 void pbt_property(Ctx &c) {
-    switch (c.weighted({5, 4, 2})) {
+    switch (c.weighted({5, 4, 2, 2})) {
     case 0: value_queries(c); break;
     case 1: standards_and_apply(c); break;
-    default: noise_grids(c); break;
+    case 2: noise_grids(c); break;
+    default: sigma_grids(c); break;
     }
 }
